@@ -484,11 +484,9 @@ V("constant action carried over", "C18", C, """                                h
 V("info lists the last five generations (suite-blind)", "C19", C, "    for hash_list in history.hash_lists:\n        if logger.verbose_logging == True:\n            creatorInfo", "    for hash_list in history.hash_lists[-5:]:\n        if logger.verbose_logging == True:\n            creatorInfo", "R19.2")
 V("format printed under the digest label", "C19", C, """                        f" {hash_entry.hash_format}: {hash_entry.hash_string} ({hash_entry.action})"
                     )
-
-""", """                        f" {hash_entry.hash_format}: {hash_entry.hash_format} ({hash_entry.action})"
+            # follow""", """                        f" {hash_entry.hash_format}: {hash_entry.hash_format} ({hash_entry.action})"
                     )
-
-""", "R19.3")
+            # follow""", "R19.3")
 V("failed entries hidden from info", "C19", C, "            for hash_entry in media_hash.hash_entries:\n                if logger.verbose_logging == True:\n                    absolutePath", '            for hash_entry in media_hash.hash_entries:\n                if hash_entry.action == "failed":\n                    continue\n                if logger.verbose_logging == True:\n                    absolutePath', "R19.3")
 V("empty history exits 0", "C19", C, """    existing_history = MHLHistory.load_from_path(root_path)
 
